@@ -276,6 +276,9 @@ class Run:
         def global_now(name):
             return bound(self.rcontext, name)
 
+        def in_globals(name):
+            return name in dict.keys(self.rcontext)
+
         def in_local(name):
             return name in dict.keys(self.econtext)
 
@@ -365,7 +368,7 @@ class Run:
                    repeat_restored=repeat_restored,
                    exc_is_exception=exc_is_exception, quoted=quoted, converted=converted,
                    piece=piece, visible=visible, visible0=visible0, visible_at=visible_at,
-                   global_now=global_now, in_local=in_local, scope_frame=scope_frame,
+                   global_now=global_now, in_local=in_local, in_globals=in_globals, scope_frame=scope_frame,
                    handler_calls=handler_calls, handler_configured=handler_configured,
                    errorinfo_of=errorinfo_of, quote_calls=quote_calls,
                    translate_calls=translate_calls, translate_arg=translate_arg,
